@@ -17,7 +17,7 @@ def main():
     rc, out = native.run(['cargo', 'build', '--offline', '--quiet', '--manifest-path', os.path.join(native.REPO, 'Cargo.toml'), '--target-dir', os.path.join(native.BUILD, 'cli' + native.alt_suffix())])
     if rc != 0:
         print('INFRASTRUCTURE-FAILURE property=C12 building the CLI failed: %s' % out[-500:]); c.write_evidence(infra_error='cli build'); sys.exit(2)
-    if ok:
+    if True:
         c.run('main + run under a symbolic environment', 'rsym.hcli', 'Cli', dict(sample_rate=0.06 if c.tier == 'quick' else 0.5),
               required_witnesses=('to stdout', 'to file', 'input fault', 'exit 1'))
     c.finish(bounds={'documents': 'root with <= 1 child, <= 1 attribute, optional text; names {b,type}/{a,b}', 'options': 'both parsers, both sort orders, derive unconstrained', 'environment': 'every combination of read/parse/create/write outcomes'},
